@@ -193,6 +193,7 @@ pub fn check_run(events: &[StepEvent], limit: usize, converted_directly: bool) -
     // phase carries the rounding residue of that phase's pivots
     let a_scale = t0.a_matrix().iter().flatten().fold(1.0f64, |s, v| s.max(v.abs()));
     let start_tol = if converted_directly { 1e-12 } else { 1e-9 * a_scale };
+    tags.push(if converted_directly { "start:directly-converted(exact unit columns required)" } else { "start:after-first-phase" });
     'start: for (i, &bj) in t0.in_basis().iter().enumerate() {
         if bj >= n {
             break;
@@ -265,6 +266,7 @@ pub fn check_run(events: &[StepEvent], limit: usize, converted_directly: bool) -
                 // the pivot itself is plain arithmetic: every entry of the tableau after the step is the Gauss-Jordan
                 // image of the tableau before it (whatever the merits of the choice of pivot), entry by entry
                 if piv != 0.0 {
+                    tags.push("pivot-compared-with-its-gauss-jordan-image");
                     if let Some(what) = pivot_arithmetic(before, &ev.after, *leaving, *entering) {
                         fail("pivot-arithmetic-differs", format!("{what} at step {step} (column {entering} enters on row {leaving})"), step);
                     }
